@@ -260,19 +260,25 @@ def gen_c02(rng, tier):
     for a in [2, 3, 5, 6, 8, 9, 11, 12, 14, 20, 33]:
         c = huff_case(rng, "c02-a%d" % a, rng.choice(HQ_KINDS), "u16", tier, "hq", n=rng.choice([200, 700, 1500]), alpha_size=a, mix=rng.choice(["fib", "uniform", "geometric"]))
         out.append(c)
-    # strongly skewed profiles: codes of 9 and more fragments (deep trees)
-    for kk, (ratio, nsym) in enumerate([(2.0, 31), (2.2, 28), (1.8, 34)]):
-        counts = [max(1, int(ratio ** (j / 3.0))) for j in range(nsym)]
+    # degenerate 4-ary profiles: at every level three leaves half as heavy as everything below
+    # them: the code of the rarest symbols has one fragment per level (9, 10, ... levels deep)
+    for kk, levels in enumerate(sizes(tier, [8, 9], [8, 9, 10, 11])):
+        counts = [1, 1, 1, 1]
+        tot = 4
+        for _ in range(levels):
+            a = max(1, tot // 2)
+            counts += [a, a, a]
+            tot += 3 * a
         seq = []
         for sym, cnt in enumerate(counts):
             seq += [sym * 3 + 1] * cnt
         rng.shuffle(seq)
         kind = HQ_KINDS[kk % 4]
-        c = Case("c02-deep%d" % kk, tags=dict(kind=kind, elem="u16", n=len(seq), alphabet=nsym, mix="deep", cost=len(seq) * 200))
+        c = Case("c02-deep%d" % kk, tags=dict(kind=kind, elem="u16", n=len(seq), alphabet=len(counts), mix="deep-%d" % (levels + 1), cost=len(seq) * 300))
         c.add(C.new_line(kind, "u16", "new", seq))
         c.add("Q codes")
         c.add("Q nlevels")
-        C.tree_queries(c, rng, seq, 16, "hq", sweep=False, nsyms=nsym)
+        C.tree_queries(c, rng, seq, 16, "hq", sweep=False, nsyms=len(counts))
         c.seq = seq
         c.model = len(seq) <= 6000
         out.append(c)
@@ -651,7 +657,7 @@ def post_c09(prop, cases, outs, profiles):
                     if a != b:
                         j, x, y = K.first_diff(a, b, lambda u, v: u == v)
                         fs.append(K.Finding("violation", prop, c, kk, "Q rankp %s %d" % (l.split()[2], j), prof, x, y, "rank_prefetch differs from rank"))
-            if "rel" in outs and "relnopf" in outs and outs["rel"][idx] != outs["relnopf"][idx] and not l.startswith("Q codes") and not l.startswith("SPACE"):
+            if "rel" in outs and "relnopf" in outs and outs["rel"][idx] != outs["relnopf"][idx] and not l.startswith("Q codes") and not l.startswith("SPACE") and not l.startswith("SER"):
                 fs.append(K.Finding("violation", prop, c, kk, l, "relnopf", outs["rel"][idx][:60], outs["relnopf"][idx][:60], "prefetch feature on/off builds disagree"))
             idx += 1
     return fs
